@@ -34,6 +34,8 @@ TL_TYPES = {"now": "Z", "tracks": "list track", "actions": "list action"}
 TLCFG = {"stop_when_done": "stop_when_done", "ignore_exceptions": "ignore_exc"}     # flags the model keeps in `config`
 ACTION = {"time": ("a_time", "time")}
 FIELDS = {"track": TRACK, "noteoff": NOTEOFF, "tl": TL, "action": ACTION}
+KIND_TYPE = {"tl": "timeline_t", "track": "track_t", "calls": "list call", "opres": "opres", "action": "action_t", "noteoff": "noteoff_t",
+             "list:track": "list track_t", "int": "Z", "time": "Z", "bool": "bool"}
 RESERVED = set(TRACK_ORDER + TL_ORDER + ["no_time", "no_abs", "no_note", "no_chan", "a_time", "cfg", "track_t", "timeline_t", "action_t",
                                          "noteoff_t", "remove_first", "noteoff_dec", "action_dec", "track_in", "tracks_remove",
                                          "stream_is_none", "stream_none", "pull", "fire_action", "ROk", "res", "calls", "got",
@@ -282,6 +284,10 @@ class TBlock(Block):
         return None
 
     def special_assigned(self, st):
+        if isinstance(st, ast.Raise):
+            return ["res"]
+        if isinstance(st, (ast.Continue, ast.Pass)):
+            return []
         c = self.classify(st, None)
         return None if c is None else c[0]
 
@@ -326,8 +332,19 @@ class TBlock(Block):
             after[n] = (kinds[n], n)
         for n in local + [x]:
             after.pop(n, None)
-        return "let %s := fold_left (fun %s %s => %s) %s %s in\n  %s" % (
-            pat, pat, x, body, l[1], self.state_tuple(state, env, kinds), go(after))
+        fun = self.name_step(["(%s : %s)" % (x, KIND_TYPE[elem])], pat, " * ".join(KIND_TYPE[kinds[n]] for n in state), body)
+        return "let %s := fold_left %s %s %s in\n  %s" % (pat, fun, l[1], self.state_tuple(state, env, kinds), go(after))
+
+    loop_prefix = None
+
+    def name_step(self, params, pat, sttype, body):
+        """the step function of a fold: inline, or (Timeline.tick) a definition of its own so that ModelSrc.v can state a lemma about it"""
+        x = params[0].split()[0].lstrip("(")
+        if self.loop_prefix is None:
+            return "(fun %s %s => %s)" % (pat, x, body)
+        name = "%s_loop%d" % (self.loop_prefix, len(self.aux) + 1)
+        self.aux.append("Definition %s (cfg : config) (st0 : %s) %s : %s :=\n  let %s := st0 in\n  %s." % (name, sttype, " ".join(params), sttype, pat, body))
+        return "(%s cfg)" % name
 
 
 # ---- the methods ---------------------------------------------------------------------------------------------------------------
@@ -508,6 +525,160 @@ def gen_get_next_event(cls):
     return term, lines_of(fn)
 
 
+
+# ---- Timeline.tick ---------------------------------------------------------------------------------------------------------------
+OUT_OF_MODEL = [
+    # LFOs and automations: the model has none (its scenarios never create one)
+    "for lfo in self.lfos[:]:\n    lfo.tick()",
+    "for automation in self.automations[:]:\n    automation.tick()",
+    # the device clocks (property C14 / C15, Clock/Multiplier.v)
+    "for device in self.output_devices:\n    clock_multiplier = self.clock_multipliers[device]\n    ticks = next(clock_multiplier)\n"
+    "    for tick in range(ticks):\n        device.tick()",
+    # the text of a log message
+    "tb = traceback.format_exc()",
+]
+ADVANCE = "self.current_time, self._tick_grid = advance_on_tick_grid(self.current_time, self.ticks_per_beat, self._tick_grid)"
+
+
+def is_pure(n):
+    """an expression whose evaluation has no effect and cannot raise on the model's data (arguments of log calls, tests of
+    `if`s that only log)"""
+    for x in ast.walk(n):
+        if isinstance(x, ast.Call):
+            if not (isinstance(x.func, ast.Name) and x.func.id in ("len", "round") and not x.keywords):
+                return False
+        elif not isinstance(x, (ast.Constant, ast.Name, ast.Attribute, ast.BinOp, ast.Tuple, ast.Compare, ast.Load, ast.operator, ast.cmpop,
+                                ast.BoolOp, ast.boolop, ast.UnaryOp, ast.unaryop)):
+            return False
+    return True
+
+
+def is_log(st):
+    return isinstance(st, ast.Expr) and isinstance(st.value, ast.Call) and isinstance(st.value.func, ast.Attribute) \
+        and isinstance(st.value.func.value, ast.Name) and st.value.func.value.id == "log" \
+        and st.value.func.attr in ("debug", "info", "warning", "error") and not st.value.keywords and all(is_pure(a) for a in st.value.args)
+
+
+def is_skipped(st):
+    if is_log(st) or ast.unparse(st) in OUT_OF_MODEL:
+        return True
+    return isinstance(st, ast.If) and not st.orelse and is_pure(st.test) and all(is_log(x) for x in st.body)
+
+
+class TickBlock(TBlock):
+    """Timeline.tick: result (self, calls, res)"""
+    rest_now = ()
+
+    def on_raise(self, st, env):
+        e = st.exc
+        if e is None and self.in_handler:                         # re-raise of the exception of track.tick()
+            e2 = dict(env)
+            e2["res"] = ("opres", "RException")
+            return self.k_now(e2)
+        name = e.func.id if isinstance(e, ast.Call) and isinstance(e.func, ast.Name) and not e.args else e.id if isinstance(e, ast.Name) else None
+        if name != "StopIteration" or st.cause is not None or self.in_for:
+            raise Reject("raise not understood: " + ast.unparse(st))
+        return "(%s, %s, RStopIteration)" % (env["self"][1], env["calls"][1])
+
+    def k_abort(self, env):
+        return self.k_now(env) if self.in_for else "(%s, %s, res)" % (env["self"][1], env["calls"][1])
+
+    in_handler = 0
+
+    def classify(self, st, env):
+        if is_skipped(st):
+            return [], lambda env, go: go(env)
+        if ast.unparse(st) == ADVANCE:
+            return ["self"], lambda env, go: self.rebind("self", "tl", "(w_now %s ((now %s) + tau cfg))" % (env["self"][1], env["self"][1]), env, go)
+        if isinstance(st, ast.For) and not st.orelse and isinstance(st.target, ast.Name) and ast.unparse(st.iter) == "self.tracks[:]":
+            x = st.target.id
+            # every Track object of the list runs a method that touches nothing but the object itself: a map over the list
+            if [ast.unparse(b) for b in st.body] == ["%s.process_note_offs()" % x]:
+                def render(env, go):
+                    if x in env:
+                        raise Reject("for loop variable %s is also an ordinary variable" % x)
+                    e2 = {key: val for key, val in env.items() if not key.startswith("self.")}
+                    e2["self"], e2["calls"] = ("tl", "self"), ("calls", "calls")
+                    fun = self.name_step(["(%s : track_t)" % x], "'(st, calls)", "list track_t * list call",
+                                         "let '(%s, c) := src_track_process_note_offs %s in (st ++ [%s], calls ++ c)" % (x, x, x))
+                    return ("let '(st, calls) := fold_left %s (tracks %s) ([], %s) in\n  let self := (w_tracks %s st) in\n  %s"
+                            % (fun, env["self"][1], env["calls"][1], env["self"][1], go(e2)))
+                return ["self", "calls"], render
+            # the loop variable is a REFERENCE to an object that the body (track.tick() and its callbacks) changes and may
+            # remove from the list: only the identity of the snapshot's entry is used; the object is looked up afresh
+            if st.body and ast.unparse(st.body[0]) == "if %s not in self.tracks:\n    continue" % x:
+                def render(env, go):
+                    if x in env or env.get("self", ("?",))[0] != "tl" or "res" not in env or "calls" not in env:
+                        raise Reject("track loop not understood")
+                    body = st.body[1:]
+                    self.in_for += 1
+                    names = assigned_names(body, self.special_assigned)
+                    state = ["self", "calls", "res"]
+                    if [n for n in names if n in env] != state:
+                        raise Reject("track loop: state %r" % names)
+                    inner = {key: val for key, val in env.items() if not key.startswith("self.")}
+                    for n_ in state:
+                        inner[n_] = (env[n_][0], n_)
+                    inner[x] = ("track", x)
+                    term = self.block(list(body), inner, lambda e: "(%s, %s, %s)" % (e["self"][1], e["calls"][1], e["res"][1]), 0)
+                    self.in_for -= 1
+                    after = dict(inner)
+                    after.pop(x)
+                    for n_ in names:
+                        if n_ not in state:
+                            after.pop(n_, None)
+                    fun = self.name_step(["(%s : track_t)" % x], "'(self, calls, res)", "timeline_t * list call * opres",
+                                         "match res with ROk =>\n  match find_track (t_id %s) (tracks self) with\n  | None => (self, calls, res)\n  | Some %s => %s\n  end\n"
+                                         "  | _ => (self, calls, res) end" % (x, x, term))
+                    return ("let '(self, calls, res) := fold_left %s (tracks %s) (%s, %s, %s) in\n  match res with ROk => %s | _ => (self, calls, res) end"
+                            % (fun, env["self"][1], env["self"][1], env["calls"][1], env["res"][1], go(after)))
+                return ["self", "calls", "res"], render
+        if isinstance(st, ast.Try):
+            if not (len(st.body) == 1 and not st.orelse and not st.finalbody and len(st.handlers) == 1 and isinstance(st.handlers[0].type, ast.Name)
+                    and st.handlers[0].type.id == "Exception" and isinstance(st.body[0], ast.Expr) and isinstance(st.body[0].value, ast.Call)
+                    and is_attr(st.body[0].value.func, attr="tick") and not st.body[0].value.args and not st.body[0].value.keywords):
+                raise Reject("try statement not understood")
+            x = st.body[0].value.func.value.id
+            h = st.handlers[0]
+            if h.name is not None and any(isinstance(n_, ast.Name) and n_.id == h.name for b in h.body for n_ in ast.walk(b) if not is_skipped(b)):
+                pass      # (reads of the exception object outside log calls are rejected as unknown names by the executor)
+
+            def render(env, go):
+                if env.get(x, ("?",))[0] != "track" or env.get("self", ("?",))[0] != "tl" or not self.in_for:
+                    raise Reject("try statement not understood")
+                e2 = {key: val for key, val in env.items() if not key.startswith("self.") and not key.startswith(x + ".")}
+                e2["self"], e2["calls"], e2[x] = ("tl", "self"), ("calls", "calls"), ("track", x)
+                rest, k = list(self.rest_now), self.k_now
+                ok = go(e2)
+                self.in_handler += 1
+                raised = self.block(list(h.body) + rest, e2, k, 1)
+                self.in_handler -= 1
+                e3 = dict(e2)
+                e3["res"] = ("opres", "ROutOfFuel")
+                return ("let '(self, c, out, %s) := obj_tick cfg %s %s in\n  let calls := (%s ++ c) in\n  match out with\n  | TickOk => %s\n  | TickRaise => %s\n  | TickFuel => %s\n  end"
+                        % (x, env["self"][1], env[x][1], env["calls"][1], ok, raised, k(e3)))
+            return ["self", "calls", "res", x] + assigned_names(h.body, self.special_assigned), render
+        return TBlock.classify(self, st, env)
+
+    def special_stmt(self, st, rest, env, go):
+        self.rest_now = rest
+        return TBlock.special_stmt(self, st, rest, env, go)
+
+
+def gen_timeline_tick(cls):
+    fn = method(cls, "tick")
+    forbid(fn, BAD + (ast.Lambda, ast.While, ast.Return))
+    signature(fn, 1)
+    b = TickBlock(fn, reserved=RESERVED | {"obj_tick", "out", "TickOk", "TickRaise", "TickFuel", "find_track", "RException", "ROutOfFuel", "RStopIteration"})
+    b.callees = {"_release_pending_notes": call_release}
+    b.loop_prefix, b.aux = "src_timeline_tick", []
+    env = {"self": ("tl", "self"), "calls": ("calls", "[]"), "res": ("opres", "ROk")}
+    term = b.run(body_of(fn), env, lambda e: "(%s, %s, ROk)" % (e["self"][1], e["calls"][1]))
+    if len(b.aux) != 3:
+        raise Reject("Timeline.tick: %d loops translated (expected: note-offs, actions, tracks)" % len(b.aux))
+    return "\n\n".join(b.aux), term, lines_of(fn)
+
+
 def writers():
     out = []
     for f in TRACK_ORDER:
@@ -549,6 +720,9 @@ def main(out_path):
     defs.append("(* Timeline.unschedule, timeline.py lines %s *)\nDefinition src_timeline_unschedule (self : timeline_t) (%s : track_t) : timeline_t * opres :=\n  %s." % (lines, p, term))
     term, lines = gen_clear(tl)
     defs.append("(* Timeline.clear, timeline.py lines %s *)\nDefinition src_timeline_clear (self : timeline_t) : timeline_t * opres :=\n  %s." % (lines, term))
+    aux, term, lines = gen_timeline_tick(tl)
+    defs.append("(* Timeline.tick, timeline.py lines %s: the bodies of its three loops (note-offs, actions, tracks) *)\n%s" % (lines, aux))
+    defs.append("(* Timeline.tick, timeline.py lines %s *)\nDefinition src_timeline_tick (cfg : config) (self : timeline_t) : timeline_t * list call * opres :=\n  %s." % (lines, term))
     text = ("(* GENERATED by harness/gen_tables_track.py from the source text of isobar/timelines/track.py and timeline.py.  Do not edit.\n"
             "   Method bodies rendered over the record types of Sched/Model.v; reading of the data: Sched/SrcGlue.v, docs/TRANSLATOR3.md. *)\n"
             "From Isobar Require Import Base.Prelude Sched.Model Sched.SrcGlue.\nLocal Open Scope Z_scope.\n\n"
